@@ -164,7 +164,7 @@ theorem fresh_volume_db (hl1 : Transc.ln (1 : K) = 0) (sr fp n : Nat) :
 /-! ### non-vacuity: the hypotheses are met by a concrete, non-trivial condition over ℚ -/
 
 instance : Transc ℚ := ⟨id, id, id, id, fun x _ => x⟩
-instance : Consts ℚ := ⟨10, 3, 1 / 17, 1 / 9, -10000000000, 3⟩
+instance : Consts ℚ := ⟨10, 3, 1 / 17, 1 / 9, -10000000000, 3, 1 / 10 ^ 100⟩
 
 example : ∃ c' : Condition ℚ,
     ((Condition.default : Condition ℚ).loadModel 48000 240 3 none none (some (11 / 20))).setMsdThreshold
